@@ -199,12 +199,111 @@ def replay_on_fd(case):
             pass
 
 
+def replay_on_popen(case):
+    """Third transport: the expect-family calls of the history on a real PopenSpawn (`cat file`), each with its
+    own timeout (0 = poll).  Whatever the timing: what was handed back plus what is pending is what was logged as
+    read, and once EOF has been reached everything handed back is the file - nothing taken from the reader
+    thread's queue may vanish."""
+    import tempfile
+    import time
+    from pexpect.popen_spawn import PopenSpawn
+    from pexpect.exceptions import EOF, TIMEOUT
+    text_mode = case['enc'] is not None
+    T = str if text_mode else bytes
+    fd, path = tempfile.mkstemp(prefix='c01_')
+    sp = None
+    try:
+        os.write(fd, case['stream'])
+        os.close(fd)
+        kw = dict(maxread=case['maxread'], searchwindowsize=case['sws'], timeout=5)
+        if text_mode:
+            kw['encoding'] = case['enc']
+        log = []
+
+        class Rec(object):
+            def write(self, s):
+                log.append(s)
+
+            def flush(self):
+                pass
+        sp = PopenSpawn(['/bin/cat', path], **kw)
+        sp.logfile_read = Rec()
+        if len(case['stream']) % 2:
+            time.sleep(0.03)          # the whole output is already queued when the first call polls
+        H = T()
+        done = False
+        calls = [c for c in case['calls'] if c['op'] in ('expect', 'expect_exact', 'expect_c')]
+        for c in calls + [None]:
+            if c is None:
+                if done:
+                    break
+                op, nat, w, to = 'expect', [EOF], -1, 5
+            else:
+                op = c['op']
+                nat = e1.native_patterns(c['pats'], text_mode, op == 'expect_exact', compiled=(op == 'expect_c'))
+                w, to = c['w'], (5 if c['timeout'] == -1 else c['timeout'])
+            outcome = 'match'
+            try:
+                with guard('popen replay ' + op, allow=(EOF, TIMEOUT)):
+                    if op == 'expect_exact':
+                        sp.expect_exact(nat, searchwindowsize=w, timeout=to)
+                    else:
+                        sp.expect(nat, searchwindowsize=w, timeout=to)
+            except EOF:
+                outcome = 'eof'
+            except TIMEOUT:
+                outcome = 'timeout'
+            else:
+                if sp.after is EOF:
+                    outcome = 'eof'
+                elif sp.after is TIMEOUT:
+                    outcome = 'timeout'
+            if outcome == 'eof':
+                H += sp.before
+                pending = T()
+                done = True
+            elif outcome == 'timeout':
+                pending = sp.before
+            else:
+                H += sp.before + sp.after
+                pending = sp.buffer
+            R = T().join(log)
+            if H + pending != R:
+                raise Violation('conservation', 'PopenSpawn, %s(timeout=%r) ended in %s: handed back %r + pending %r != logged as read %r'
+                                % (op, to, outcome, H, pending, R))
+            if done:
+                break
+        whole = case['stream'].decode(case['enc']) if text_mode else case['stream']
+        if H != whole:
+            raise Violation('conservation', 'PopenSpawn (`cat` of %r): everything handed back up to EOF is %r' % (whole, H))
+    finally:
+        if sp is not None:
+            try:
+                sp.proc.kill()
+            except Exception:
+                pass
+            try:
+                sp.proc.wait()
+                sp.proc.stdout.close()
+                sp.proc.stdin.close()
+            except Exception:
+                pass
+        try:
+            os.unlink(path)
+        except OSError:
+            pass
+
+
 def body(case, col):
     with case_watchdog(30, 'C01 history'):
         check_case(case, col)
     if not case['marks'] and case['tail'] == 'eof' and (len(case['stream']) % 10 == 3):
         col.count('fd_replays')
         replay_on_fd(case)
+    if not case['marks'] and case['tail'] == 'eof' and (len(case['stream']) % 10 in (5, 7)):
+        col.count('popen_replays')
+        with case_watchdog(60, 'C01 popen replay'):
+            replay_on_popen(case)
 
 
 def run_shard(spec, seed, idx, deadline_ts):
@@ -219,6 +318,7 @@ def replay(case, spec=None):
     check_case(case)
     if not case['marks'] and case['tail'] == 'eof':
         replay_on_fd(case)
+        replay_on_popen(case)
 
 
 # ---------------------------------------------------------------------------
